@@ -20,6 +20,7 @@ class FuncWorld:
     def __init__(self, with_post: bool) -> None:
         self.calls_pre = [[-1, -1] for _ in range(N)]  # type: List[List[int]]
         self.calls_post = [[-1] for _ in range(N)]  # type: List[List[int]]
+        self.calls_cap = [[-1] for _ in range(N)]  # type: List[List[int]]
         self.calls_body = [[-1, -1] for _ in range(N)]  # type: List[List[int]]
         self.truth = [True] * N  # type: List[Any]
         self.fuel = 0
@@ -51,6 +52,17 @@ class FuncWorld:
                     w.depth -= 1
                 return True
 
+            def cap() -> Any:
+                w.log.append(("cap", i))
+                w.enter()
+                try:
+                    for c in w.calls_cap[i]:
+                        if c >= 0:
+                            w.funcs[c]()
+                finally:
+                    w.depth -= 1
+                return 0
+
             def body() -> Any:
                 w.log.append(("body", i))
                 if w.fuel > 0:
@@ -67,6 +79,7 @@ class FuncWorld:
             f = body
             if with_post:
                 f = icontract.ensure(post, error=lambda: Tag(("post", i)))(f)
+                f = icontract.snapshot(cap, name="s")(f)
             f = icontract.require(pre, error=lambda: Tag(("pre", i)))(f)
             return f
 
@@ -102,6 +115,12 @@ def reference(w: FuncWorld, with_post: bool, top: int, fuel: int) -> Tuple[List[
                 call(c, marked + (i,))
         if not w.truth[i]:
             raise RefViolation(("pre", i))
+        if with_post:
+            # snapshot captures are contract evaluation too: f_i is still marked
+            log.append(("cap", i))
+            for c in w.calls_cap[i]:
+                if c >= 0:
+                    call(c, marked + (i,))
         # the body is NOT contract evaluation: calls made by it are checked in full
         body(i, marked)
         if with_post:
@@ -130,11 +149,12 @@ _WORLDS = {}  # type: Dict[bool, FuncWorld]
 
 def run_graph(with_post: bool, top: int, fuel: int, e0: int, e1: int, e2: int, e3: int, e4: int, e5: int,
               b0: int, b1: int, b2: int, b3: int, b4: int, b5: int, p0: int, p1: int, p2: int,
-              t0: bool, t1: bool, t2: bool) -> Tuple[bool, bool]:
+              c0: int, c1: int, c2: int, t0: bool, t1: bool, t2: bool) -> Tuple[bool, bool]:
     top, fuel = conc(top, 0, N - 1), conc(fuel, 0, 3)
     edges_pre = [conc(e, -1, N - 1) for e in (e0, e1, e2, e3, e4, e5)]
     edges_body = [conc(e, -1, N - 1) for e in (b0, b1, b2, b3, b4, b5)]
     edges_post = [conc(e, -1, N - 1) for e in (p0, p1, p2)]
+    edges_cap = [conc(e, -1, N - 1) for e in (c0, c1, c2)]
     with untraced():
         w = _WORLDS.get(with_post)
         if w is None:
@@ -143,6 +163,7 @@ def run_graph(with_post: bool, top: int, fuel: int, e0: int, e1: int, e2: int, e
         w.calls_pre = [edges_pre[0:2], edges_pre[2:4], edges_pre[4:6]]
         w.calls_body = [edges_body[0:2], edges_body[2:4], edges_body[4:6]]
         w.calls_post = [[edges_post[0]], [edges_post[1]], [edges_post[2]]]
+        w.calls_cap = [[edges_cap[0]], [edges_cap[1]], [edges_cap[2]]]
     w.truth = [t0, t1, t2]
     ok = True
     witness = False
@@ -177,7 +198,7 @@ def run_graph(with_post: bool, top: int, fuel: int, e0: int, e1: int, e2: int, e
     n_checked = sum(1 for e in exp_log if e[0] == "pre")
     n_bodies = sum(1 for e in exp_log if e[0] == "body")
     witness = n_bodies > n_checked
-    note((with_post, top, fuel, tuple(edges_pre), tuple(edges_body), tuple(edges_post), tuple(exp_log), exp_out), witness)
+    note((with_post, top, fuel, tuple(edges_pre), tuple(edges_body), tuple(edges_post), tuple(edges_cap), tuple(exp_log), exp_out), witness)
     return ok, witness
 
 
@@ -312,13 +333,13 @@ def run_objs(o: int, k: int, fuel: int, i0: int, i1: int, c0: int, c1: int, c2: 
 
 
 ALL = ["top", "fuel", "e0", "e1", "e2", "e3", "e4", "e5", "b0", "b1", "b2", "b3", "b4", "b5", "p0", "p1", "p2",
-       "t0", "t1", "t2"]
+       "c0", "c1", "c2", "t0", "t1", "t2"]
 
 
 def harnesses(tier: str) -> List[H]:
     out = []  # type: List[H]
     E = lambda n: I(n, -1, N - 1)  # noqa: E731
-    base = {n: -1 for n in ALL if n[0] in "ebp"}  # type: Dict[str, Any]
+    base = {n: -1 for n in ALL if n[0] in "ebpc"}  # type: Dict[str, Any]
     base.update({"t0": True, "t1": True, "t2": True, "top": 0, "fuel": 0})
     # 1. conditions calling functions (no body calls): all graphs with <= 1 (quick) / 2 (thorough) calls per condition
     if tier == "quick":
@@ -339,14 +360,14 @@ def harnesses(tier: str) -> List[H]:
                          tiers=(tier,), timeout=900,
                          family="bodies of f0/f1 call functions too (fuel-bounded; first callee of f0's body: %d); "
                                 "recursive calls made by a body must be checked" % v, family_size=4 ** 4 * 2))
-            params = [I("top", 0, 1), E("e2"), E("p0"), E("p1"), E("b0")]
+            params = [I("top", 0, 1), E("e2"), E("p0"), E("c0"), E("c1"), E("b0")]
             d = dict(base)
             d["e0"] = v
             d["fuel"] = 1
             out.append(H("graph_post" + sfx, bind(run_graph, (True,), ALL, d, [p.name for p in params]), params,
                          tiers=(tier,), timeout=900,
-                         family="functions with pre- and postconditions, both calling functions (first callee of f0's "
-                                "precondition: %d)" % v, family_size=4 ** 4 * 2))
+                         family="functions with pre-/postconditions and snapshot captures, all calling functions (first "
+                                "callee of f0's precondition: %d)" % v, family_size=4 ** 5 * 2))
     else:
         for top in range(3):
             params = [E("e0"), E("e1"), E("e2"), E("e3"), E("e4"), E("e5"), B("t0"), B("t1"), B("t2")]
@@ -364,7 +385,7 @@ def harnesses(tier: str) -> List[H]:
                          params, tiers=(tier,), timeout=3600,
                          family="conditions call one function each; bodies of f0/f1 call up to two; fuel %d" % fuel,
                          family_size=4 ** 7))
-        params = [I("top", 0, 2), I("fuel", 0, 2), E("e0"), E("e2"), E("e4"), E("p0"), E("p1"), E("p2"), E("b0"), E("b2")]
+        params = [I("top", 0, 2), I("fuel", 0, 2), E("e0"), E("e2"), E("e4"), E("p0"), E("p1"), E("c0"), E("c1"), E("c2"), E("b0")]
         out.append(H("graph_post", bind(run_graph, (True,), ALL, dict(base), [p.name for p in params]), params,
                      tiers=(tier,), timeout=3600, family="pre- and postconditions and bodies calling functions",
                      family_size=4 ** 8 * 9))
